@@ -546,7 +546,7 @@ fn run_history(rng: &mut Rng, json: bool, thorough: bool, report: &Arc<Mutex<Rep
                 }
                 7 => {
                     next_site += 1;
-                    FEvent::Spawned(next_site)
+                    if rng.chance(1, 2) { FEvent::Spawned(next_site) } else { FEvent::StreamTake(next_site, rng.below(4) as u8) }
                 }
                 2 => {
                     next_site += 1;
@@ -577,6 +577,11 @@ fn run_history(rng: &mut Rng, json: bool, thorough: bool, report: &Arc<Mutex<Rep
                 poisoned = true;
             }
             (Ok(Ok(out)), Ok(tout)) => absorb(&a, &t, &out, &tout, &mut outstanding, &mut r, &replay),
+            (Ok(Err(ea)), Err(et)) if ea == et => {
+                // a well-formed item for a subscription whose consumer has ended: rejected, the same
+                // way on both bridges
+                r.count("valid_calls_rejected_the_same_way_on_both_bridges", 1);
+            }
             (Ok(ra), rt) => {
                 r.violation(
                     "malformed/later-valid-call-differs-from-twin",
